@@ -20,7 +20,7 @@ REQUIRED_CLASSES = {t: ["dim:3d", "dim:2d_with_z", "dim:2d_without_z", "elements
                         "import:one_importer_several_geometries", "fault:in_add_geometry", "fault:in_add_variable", "fault:container_holds_earlier_variable",
                         "fault:container_created_by_the_failing_call",
                         "misuse:duplicate_geometry", "misuse:duplicate_variable", "misuse:variable_for_unknown_geometry",
-                        "misuse:variable_columns_missing_in_frame", "misuse:geometry_without_x_column"]
+                        "misuse:variable_columns_missing_in_frame", "misuse:geometry_without_x_column", "misuse:node_id_beyond_int32", "misuse:element_id_beyond_int32"]
                     for t in ("quick", "thorough")}
 REQUIRED_MONITORS = ["roundtrip:index(elements_by_id,node_order_kept)", "roundtrip:coordinates", "roundtrip:NODE_variable",
                      "roundtrip:ELEMENT_NODAL_variable", "roundtrip:sets", "import_repeatable", "filter_by_set==members",
@@ -308,7 +308,13 @@ def _misuse(case, ctx, rng, tmp):
     ex.add_variable("STATE-2", "BASE", "STRESS_CAUCHY", base_df)
     bad_cols = new_df.drop(columns=["S11"])
     no_x = new_df.drop(columns=["x"])
+    def _with_big_id(level):
+        d = new_df.reset_index()
+        d.loc[d[level] == d[level].iloc[-1], level] = 2**31 + 5          # an id the file format (32 bit integers) cannot hold
+        return d.set_index(["element_id", "node_id"])
     calls = [
+        ("node_id_beyond_int32", lambda: ex.add_geometry("BIGNODE", _with_big_id("node_id"))),
+        ("element_id_beyond_int32", lambda: ex.add_geometry("BIGELEM", _with_big_id("element_id"))),
         ("duplicate_geometry", lambda: ex.add_geometry("BASE", new_df)),
         ("variable_for_unknown_geometry", lambda: ex.add_variable("STATE-1", "NOPE", "DISPLACEMENT", new_df)),
         ("duplicate_variable", lambda: ex.add_variable("STATE-1", "BASE", "DISPLACEMENT", new_df)),
